@@ -167,3 +167,51 @@ def run(ctx):
     port_set = [ln for ln, t_ in lines if t_.replace('"', "'").startswith(f"{rcn}['port'] = port")]
     keyed = [ln for ln, t_ in lines if f"self.connection_from_context({rcn})" in t_]
     ctx.ob(R6, cfh.qual, "the (defaulted) port is stored in the context before it is keyed", bool(port_set) and bool(keyed) and port_set[0] < keyed[0])
+
+
+# ---------------------------------------------------------------------------- R7 (added after seeded change C15/target-form-by-parsed-host)
+def _run_r7(ctx):
+    R7 = ctx.rule("C15-R7", "the form of the request target is decided on the string the pool was given, not on a re-parse of it: a target rebuilt from parsed URL components is used only when the given string does not start with '/' (a path such as //cdn/x re-parsed as a URL has an authority: deciding on the parsed host would send `cdn/x`)", "E4 decisions at the request site (shared resend analysis)")
+    prule, pfi, pouts = resend.analyse(ctx, "pool")
+    reqs = [s for s in prule.sites if s.kind == "request"]
+    SEL = "given-url.startswith('/')"
+    seen = set()
+    n = 0
+    for s in reqs:
+        u = s.args.get("url")
+        if u is None:
+            continue
+        from_parse = any(t.startswith("parsed:") or t.startswith("u.") for t in u.tags)
+        origin = "_encode_target" in u.tags and not from_parse
+        sel = s.st.facts.get(SEL, (None, None))[0]
+        parsed_decided = sorted(k for k, v in s.st.facts.items() if k in ("u.host", "u.netloc", "u.hostname", "u.authority", "u.auth", "u.port") and (v[0] is not None or v[1] is not None))
+        key = (from_parse, origin, sel, tuple(parsed_decided))
+        if key in seen:
+            continue
+        seen.add(key)
+        n += 1
+        if from_parse:
+            if sel is False:
+                ctx.ob(R7, pfi.qual, "absolute-form target (rebuilt from the parse) only when the given string does not start with '/'", True, node=s.node)
+            elif parsed_decided:
+                ctx.ob(R7, pfi.qual, f"target rebuilt from the parse under a decision on {parsed_decided}", False,
+                       "the origin-form string handed over by PoolManager (Url.request_uri) is re-parsed and the form is chosen from that parse: a path starting with `//` parses as an authority, so `//other.example/x` goes on the wire as `other.example/x`",
+                       witness=s.st.witness(), node=s.node)
+            elif sel is None:
+                raise AnalysisError("C15-R7: the absolute-form branch of urlopen is selected by a condition the rule does not recognise")
+            else:
+                ctx.ob(R7, pfi.qual, "a string starting with '/' is rebuilt from its parse", False,
+                       "an origin-form target must be sent as given (encoded), never re-assembled from a re-parse", witness=s.st.witness(), node=s.node)
+        elif origin:
+            ok = sel is not False
+            ctx.ob(R7, pfi.qual, "origin-form target is the given string, encoded", ok,
+                   "" if ok else "a string that does not start with '/' is treated as origin-form", witness=s.st.witness(), node=s.node)
+    ctx.sites(R7, n, 2, "target forms reaching the request (origin-form, absolute-form)")
+
+
+_run_base15 = run
+
+
+def run(ctx):  # noqa: F811
+    _run_base15(ctx)
+    _run_r7(ctx)
